@@ -148,6 +148,11 @@ impl Model {
             return 1.0;
         };
 
+        // Sin puntos de muestreo (hueco sin posición o geometría incompleta) no hay obstrucción calculable
+        if ray_origins.is_empty() {
+            return 1.0;
+        }
+
         // Comprobamos que la normal del opaco y el rayo hacia el sol no son opuestos (backface culling)
         // Si no, el rayo iría al interior del hueco, está en sombra, y devolvemos 0.0
         if window_wall.geometry.normal().dot(ray_dir) < 0.01 {
